@@ -99,6 +99,43 @@ def expr_value_pass(ck, tree_cases, tier, seed):
     ck.notes.append("expression pass: %d trees printed into %d texts and evaluated against the tree oracle" % (len(cases), len(printed)))
 
 
+def string_context_pass(ck, rnd):
+    """E: the embedding sites x character classes x spellings of C12 (quotes, ampersands, entities, line separators, NUL,
+    astral characters in text, attribute values, names, keys, paths, string literals): the PRINTED template must still hand
+    the denoted string to the runtime, re-parse without diagnostics above Note and print to itself."""
+    import c12
+    cases = c12.context_cases(rnd)
+    bad = set()
+    c12.evaluate_contexts(ck, cases, lambda c, got: bad.add(c[3]), count=False)
+    cases = [c for c in cases if c[3] not in bad]          # (what the original does not deliver is C12's business)
+    vres = vlib.run_vh("tmpl", [{"id": k, "files": [["c%d" % i, c[3]] for i, c in enumerate(cases[k:k + 200])], "want": ["str"]}
+                                for k in range(0, len(cases), 200)])
+    printed = []
+    for k, r in zip(range(0, len(cases), 200), vres):
+        if r["panic"]:
+            continue
+        for i, c in enumerate(cases[k:k + 200]):
+            x = r["str"].get("c%d" % i) or {}
+            if "plain" not in x or any(w[1] >= 3 for w in (x.get("w") or [])):
+                continue
+            out = x["plain"]
+            if x.get("plain2") != out:
+                ck.report({"sig": "not-a-fixpoint", "orig": c[3], "printed": out, "printed_again": x.get("plain2"), "mode": "plain"},
+                          "printing is not a fix-point (plain):\n  source : %r\n  printed: %r\n  again  : %r" % (c[3], out, x.get("plain2")))
+            worse = [w for w in (x.get("plain_w2") or []) if w[1] >= 2 and not any(v[0] == w[0] for v in (x.get("w") or []))]
+            if worse:
+                ck.report({"sig": "diagnostic-on-printed-text", "orig": c[3], "printed": out, "warn": worse, "mode": "plain"},
+                          "re-parsing the printed text gives diagnostics the source did not have: %s\n  source : %r\n  printed: %r" % (worse, c[3], out))
+            printed.append((c[0], c[1], c[2], out, c[4], c[5], c[3]))
+
+    def on_fail(c, got):
+        ck.report({"sig": "printed-string-differs", "orig": c[6], "printed": c[3], "site": c[0], "cls": c[1], "expect": c[4], "got": got, "mode": "plain"},
+                  "the printed template hands another string to the runtime (%s / %s): %r is printed as %r, which delivers %r instead of %r" % (
+                      c[0], c[1], c[6], c[3], got, c[4]))
+    c12.evaluate_contexts(ck, printed, on_fail, count=False)
+    ck.notes.append("string contexts: %d templates printed and executed" % len(printed))
+
+
 def run(tier, seed, replay):
     ck = vlib.Check("C14", tier, seed)
     ck.rule = ("A: cases of families F1-F6 and update histories of UD/UI/US/F4/F5, concretised, printed by the real "
@@ -182,6 +219,7 @@ def run(tier, seed, replay):
         vlib.tlc_expect_ok(eres, "MCWxmlExpr")
         ck.add_tlc(eres)
         expr_value_pass(ck, eres.cases, tier, seed)
+        string_context_pass(ck, rnd)
         for n, c in enumerate(eres.cases):
             if tier == "quick" and (n + seed) % 6:
                 continue
@@ -195,7 +233,11 @@ def run(tier, seed, replay):
                  "{{ 1e309 }}", "{{ a ?? b || c }}", "{{ - -a }}", "{{ + +a }}", "{{ a - -1 }}", "{{ typeof typeof a }}",
                  "{{ 'a\\'b' }}", "{{ 'a\\\\b' }}", "{{ 'a\\nb' }}", "{{ \"a'b\" }}", "<v a='{{ \"q\" }}'/>", "{{ a }}{{ b }}", "{{ a }} {{ b }}",
                  "{{ 0.1 }}", "{{ 1e-7 }}", "{{ 5e-324 }}", "{{ 123456789012345680000 }}", "{{ {a, b: c} }}", "{{ [a, ...b] }}",
-                 "<v a=\"x{{ c + 'y' }}z\"/>", "{{ c }}&lt;{{ d }}", "<v a=\"{{ a }}&quot;{{ b }}\"/>"]
+                 "<v a=\"x{{ c + 'y' }}z\"/>", "{{ c }}&lt;{{ d }}", "<v a=\"{{ a }}&quot;{{ b }}\"/>",
+                 # a brace right before a binding; a path that still ends in the suffix after the parser took one off
+                 "a&#123;{{c}}", "<v a=\"p&#123;{{c}}\"/>", "a{{ '{' }}{{c}}", "{{c}}&#123;{{d}}", "a&#125;}{{c}}",
+                 "<import src=\"a.wxml.wxml\"/><template is=\"t\"/>", "<include src=\"./b.wxml.wxml\"/>",
+                 "<wxs module=\"m\" src=\"c.wxs.wxs\"/>{{m.x}}"]
         snippets.extend(extra)
     # ---- B: snippets, original vs printed
     if snippets:
